@@ -931,7 +931,41 @@ def _table_lookup(m, g, op):
     return (path, decided, from_format, None)
 
 
-RULES = [("C08.R1", r1_mapping), ("C08.R1b", r1b_carried_unmodified), ("C08.R2", r2_recursion), ("C08.R3", r3_single_entry), ("C08.R4", r4_tables)]
+def r5_lone_allof_only(ctx):
+    """Added after adversary change C08-L (the `(Some(subschema), 1)` arm of schema_extract_description became `if let Some(subschema) =
+    subschemas.first()`: a parameter or header member documented as `allOf: [A, B]` was published as just `A`, dropping B's limits).  The
+    helper every parameter / header member passes through before conversion replaces an `allOf` by its first element only when that is its
+    only element."""
+    R = ctx.rule("C08.R5", "schema_extract_description hands back the first element of an allOf in place of the schema only under a test that the allOf has exactly one element", floor=1)
+    f = ctx.need_fn(ctx.ds, R, r"^schema_util::schema_extract_description$")
+    firsts = r"slice::<impl \[T\]>::first$|slice::<impl \[T\]>::get$|ops::Index::index$|Iterator::next$|slice::<impl \[T\]>::iter$|Vec::<T, A>::pop$|Vec::<T, A>::remove$"
+    sites = [(bb, t) for bb, t in f.live_calls(r"clone::Clone::clone$") if f.slice(t["args"][0]).has_call(firsts)]
+    # an element reached through a slice pattern `[only]` has no call on the way; its guard is the same length test
+    guards = []
+    for sbb, t in f.switches():
+        d = t["discr"]
+        if d.get("k") not in ("copy", "move"):
+            continue
+        sl = f.slice(d)
+        if sl.has_call(r"::len$") or any(a[0] == "len" for a in sl.atoms):
+            for v, tgt in t["targets"]:
+                if v == 1 and f.local_ty(d["pl"]["l"]) != "bool" or (v == 1 and d["pl"]["p"]):
+                    guards.append((sbb, tgt))
+            # `len == 1` / `1 == len`
+            if f.local_ty(d["pl"]["l"]) == "bool" and not d["pl"]["p"]:
+                for dbb, kind, node in f.defs().get(d["pl"]["l"], []):
+                    if kind == "assign" and node["rv"]["rv"] == "binop" and node["rv"]["op"] == "Eq" and \
+                            any((o.get("val") or {}).get("int") == 1 for o in (node["rv"]["a"], node["rv"]["b"]) if o.get("k") == "const"):
+                        tb, fb = f.bool_edges(sbb)
+                        if tb is not None:
+                            guards.append((sbb, tb))
+    ctx.check(R, "first-element-sites", len(sites) >= 1, "places where schema_extract_description clones an element of the allOf list: %d" % len(sites), f, nontrivial=False)
+    for n, (bb, t) in enumerate(sites):
+        ok = any(f.edge_dominates(sbb, tgt, bb) for sbb, tgt in guards)
+        ctx.check(R, "unwrapped-only-when-alone#%d" % n, ok, "the element is taken only on the `length is 1` edge of a test of the allOf list's length (length tests found: %d): %s" % (len(guards), ok), (f, bb))
+
+
+RULES = [("C08.R5", r5_lone_allof_only), ("C08.R1", r1_mapping), ("C08.R1b", r1b_carried_unmodified), ("C08.R2", r2_recursion), ("C08.R3", r3_single_entry), ("C08.R4", r4_tables)]
 
 SU = "dropshot/src/schema_util.rs"
 _EXT = "    data.extensions = obj\n        .extensions\n        .iter()\n        .filter(|(key, _)| key.starts_with(\"x-\"))\n        .map(|(key, value)| (key.clone(), value.clone()))\n        .collect();\n"
@@ -1188,4 +1222,13 @@ SELFTEST = [
             "the item it is applied to is the argument of the call through which the value travels, not of every call that takes the closure"},
     {"name": "shared-cast-closure-clamps", "kind": "mutant", "edits": [(SU, _INT_MULT_MIN, _int_mult_min_shared(closure="|f: f64| (f as i64).max(0)"))],
      "expect": ["C08.R1b"], "why": "the shared closure clamps negative bounds to 0"},
+]
+
+
+SELFTEST += [
+    {"name": "lone-allof-tested-with-len-eq-1", "kind": "benign", "why": "behaviour-preserving: `match (first, len) { (Some(s), 1) => .. }` written as `if len == 1 { if let Some(s) = first { .. } }`",
+     "edits": [("dropshot/src/schema_util.rs", "            match (subschemas.first(), subschemas.len()) {\n                (Some(subschema), 1) => {\n                    let description = metadata\n                        .as_ref()\n                        .and_then(|m| m.as_ref().description.clone());\n                    return (description, subschema.clone());\n                }\n                _ => (),\n            }",
+                "            if subschemas.len() == 1 {\n                if let Some(subschema) = subschemas.first() {\n                    let description = metadata\n                        .as_ref()\n                        .and_then(|m| m.as_ref().description.clone());\n                    return (description, subschema.clone());\n                }\n            }")]},
+    {"name": "first-of-any-allof", "kind": "mutant", "expect": ["C08.R5"], "why": "an allOf with several elements is replaced by its first element: the other elements' limits vanish from parameter and header schemas",
+     "edits": [("dropshot/src/schema_util.rs", "            match (subschemas.first(), subschemas.len()) {\n                (Some(subschema), 1) => {", "            match (subschemas.first(), subschemas.len()) {\n                (Some(subschema), _) => {")]},
 ]
